@@ -349,7 +349,26 @@ THEOREMS = {
     'C12_case_idem_partial': 'case change is idempotent when every special character is closed',
     'C12_case_idem_neg': 'witness "{\\{": case change is not idempotent on an unclosed special character with a further open brace',
     'C12_case_braces': 'inside braces case change changes nothing except the non-command words of a special character',
+    'C12_split_braces': 'top-level splitting never splits inside braces: on balanced input every part is balanced',
+    'C12_split_drops_seps': 'top-level splitting drops only separators: the balanced input is the parts in order with exactly one separator match between consecutive parts',
+    'C12_split_fuel': 'the fuel (length + 1) of the two loops of the splitting model is never exhausted',
 }
 
-LEVEL_TEXT = 'see THEOREMS; filled when the proofs are registered'
-LEVEL_NOTE = ''
+LEVEL_TEXT = ('Machine-checked proofs (Lean 4) about the executable model of pybtex/bibtex/utils.py, for ALL strings and ALL integer '
+              'arguments: substring = BibTeX substring$ for every (start, length); the scanner is lossless exactly up to the "}" it '
+              'appends after an unclosed special character, its levels are the running brace depth, and it fails exactly beyond 100 '
+              'nested braces; text length = an independent reference count (braces never, a special character once); the text prefix '
+              'has text length min(n, length), is empty for n <= 0, and is a prefix plus exactly the closing braces it left open; '
+              'purify yields only alphanumerics and spaces and is idempotent; case change preserves length and letters up to case, '
+              'is idempotent (all three under "every special character is closed", with machine-checked counterexamples without it) '
+              'and inside braces touches only the non-command words of a special character; top-level splitting of balanced input '
+              'yields balanced parts and drops only separator matches. The model is tied to the code by the differential check '
+              '(exhaustive over all strings of length <= 4 over a 10-character alphabet x all counts/windows, sampled beyond).')
+LEVEL_NOTE = ('Trusted: Lean kernel; axioms propext/Classical.choice/Quot.sound only; the hand-written model (Model/TeXString.lean) and '
+              'reference notions (Spec/TeXString.lean: substring, depthAfter, balanced, maxDepth, endsInSpecial, depthSat, textLength, '
+              'SplitsTo and the separator predicates) correspond to the code only as far as the differential check explores; letters, '
+              'digits and case mapping are ASCII in the model; re.split on the four separator shapes is modelled by hand matchers. '
+              'The three case-change laws are false of the code on strings with an unclosed special character (known finding '
+              'C12-unclosed-special-char; C12_case_len_neg, C12_case_letters_neg, C12_case_idem_neg are the proved witnesses); the split '
+              'theorems assume balanced input and do not claim that every top-level separator is split at; bibtex_width, '
+              'bibtex_first_letter and bibtex_abbreviate are covered by the correspondence check only.')
